@@ -113,7 +113,10 @@ def ifft(data, shift=True):
                 shifted,
                 axes=[data.dims.index('m'), data.dims.index('n')])
         else:
-            res = np.fft.ifft2(data_np)
+            # (same axes as the forward transform, wherever they are)
+            res = np.fft.ifft2(
+                data_np,
+                axes=[data.dims.index('m'), data.dims.index('n')])
 
     if isinstance(data, xr.DataArray):
         res = xr.DataArray(res, **transform_metadata(data, True))
